@@ -1473,15 +1473,38 @@ def r12x(ctx, rep, rule="R12x"):
         "instructions", hits or [scope[0].span])
 
 
+def _field_names_used(f):
+    """names of every field projection that occurs in f (statements and call arguments)"""
+    out = set()
+
+    def visit(p_):
+        for e in (p_ or {}).get("p", []):
+            if isinstance(e, dict) and "f" in e:
+                out.add(e["n"])
+    for bb, j_, st in f.stmts():
+        visit(st["lhs"])
+        for pr in places_read(st["rv"]):
+            visit(pr)
+    for bb, t in f.calls():
+        for a in t["args"]:
+            visit(op_place(a))
+    return out
+
+
+def _owning(ty):
+    return bool(re.search(r"Cell|Vec<|String|HashMap|EnvironmentMap|Rc<|Box<", ty or ""))
+
+
 def r12y(ctx, rep, rule="R12y"):
     """the weight of a macro covers everything its rules own"""
-    from ..flow import fields_read_of_self
     facts = ctx["facts"]
     rep.rule(rule, "a macro's weight is the memory of its rules, not the number of their pairs: a transformer owns copies of its "
-             "patterns, templates and literals (every pattern keeps the literals once more), and a string or symbol among them is "
-             "one cell however long. The function the weigher calls for a Macro (a) visits the transformer's literals as well as "
-             "its rules and (b) gives strings and symbols arms of their own in its walk over the cells. 1000 redefinitions of a "
-             "macro whose template holds a 1 MB string kept 900 MB; 1000 of one with 20000 literals 2.5 GB.")
+             "keyword, its ellipsis, its literals, and of every pattern and template — and every pattern keeps the ellipsis, the "
+             "literals and its variables once more; a string or symbol among them is one cell however long. The function the "
+             "weigher calls for a Macro (a) reads every field of Transform and of Pattern that owns memory (the two tables are "
+             "taken from the type definitions) and (b) reaches a walk over cells that gives strings and symbols arms of their "
+             "own. 1000 redefinitions of a macro whose template holds a 1 MB string kept 900 MB; of one with 20000 literals 2.5 "
+             "GB; of one named by a 1 MB symbol 990 MB.")
     weigher, kinds = _r12_weighed_kinds(facts)
     if weigher is None:
         rep.anchor_lost(rule, "the weigher of Heap::put")
@@ -1495,24 +1518,85 @@ def r12y(ctx, rep, rule="R12y"):
     if target is None:
         rep.fail(rule, rule + "|macro|weight-function", "the weigher has no arm for a Macro that calls into the transformer", [weigher.span])
         return
-    read = set(fields_read_of_self(target))
-    key = rule + "|" + target.short.rsplit("::", 1)[-1] + "|literals-visited"
-    ok = "literals" in read and "syntax_rules" in read
-    (rep.ok if ok else rep.fail)(
-        rule, key, "%s reads the transformer's rules and its literals" % target.short if ok else
-        "%s reads Transform.{%s} only: the literals of a syntax-rules form (and their copy in every pattern) weigh nothing, so dead "
-        "transformers with long literal lists pile up unseen" % (target.short, ", ".join(sorted(read))), [target.span])
+    used = _field_names_used(target)
+    short = target.short.rsplit("::", 1)[-1]
+    n = 0
+    for adt in ("marwood::vm::transform::Transform", "marwood::vm::transform::Pattern"):
+        a = facts.adts.get(adt)
+        if a is None:
+            rep.anchor_lost(rule, adt)
+            continue
+        for v in a["variants"]:
+            for fld in v["fields"]:
+                if not _owning(fld.get("ty")):
+                    continue
+                n += 1
+                nm = fld["name"]
+                key = "%s|%s|%s.%s" % (rule, short, adt.rsplit("::", 1)[-1], nm)
+                (rep.ok if nm in used else rep.fail)(
+                    rule, key, "%s reads %s.%s" % (target.short, adt.rsplit("::", 1)[-1], nm) if nm in used else
+                    "%s never reads %s.%s (%s): what that field owns weighs nothing, so dead transformers that are large there pile "
+                    "up unseen" % (target.short, adt.rsplit("::", 1)[-1], nm, fld.get("ty")), [target.span])
+    rep.floor(rule, "memory-owning fields of Transform and Pattern", n, 10)
     armed = set()
-    for csw in disc_switches(facts, target, "marwood::cell::Cell"):
-        for v, tg in csw["arms"].items():
-            if tg != csw["otherwise"]:
-                armed.add(v)
+    scope = [target] + [facts.fns[callee(t)] for bb, t in target.calls() if (callee(t) or "").startswith("marwood::cell::") and callee(t) in facts.fns]
+    for g in scope:
+        for csw in disc_switches(facts, g, "marwood::cell::Cell"):
+            for v, tg in csw["arms"].items():
+                if tg != csw["otherwise"]:
+                    armed.add(v)
     for kind in ("String", "Symbol"):
-        key = "%s|%s|%s" % (rule, target.short.rsplit("::", 1)[-1], kind)
+        key = "%s|%s|%s" % (rule, short, kind)
         (rep.ok if kind in armed else rep.fail)(
             rule, key, "a %s in a rule is weighed by its own arm" % kind if kind in armed else
             "%s walks the cells of the rules without an arm for a %s: its text, however long, counts as one cell" % (target.short, kind),
             [target.span])
+
+
+def r12z(ctx, rep, rule="R12z"):
+    """the weight of a procedure covers every field that owns memory"""
+    facts = ctx["facts"]
+    rep.rule(rule, "a procedure is one cell: its code, its formals, its environment map and the datum it is described by "
+             "(Lambda.desc_args, a Cell copy of the formals with a String per name) are fields of the Lambda. The weigher's arm "
+             "for a Lambda reads every field of the type that owns memory (the table is the type definition). 1000 "
+             "evaluations of (lambda (<1 MB symbol>) 1) held 990 MB for 3 MB of live data.")
+    weigher, kinds = _r12_weighed_kinds(facts)
+    if weigher is None:
+        rep.anchor_lost(rule, "the weigher of Heap::put")
+        return
+    sw = disc_switches(facts, weigher, "marwood::vm::vcell::VCell")[0]
+    region = arm_region(weigher, sw, "Lambda")
+    used = set()
+
+    def visit(p_):
+        for e in (p_ or {}).get("p", []):
+            if isinstance(e, dict) and "f" in e:
+                used.add(e["n"])
+    for bb, j_, st in weigher.stmts():
+        if bb in region:
+            for pr in places_read(st["rv"]):
+                visit(pr)
+    for bb, t in weigher.calls():
+        if bb in region:
+            for a_ in t["args"]:
+                visit(op_place(a_))
+    a = facts.adts.get("marwood::vm::lambda::Lambda")
+    if a is None or not region:
+        rep.anchor_lost(rule, "Lambda / its arm in the weigher")
+        return
+    n = 0
+    for v in a["variants"]:
+        for fld in v["fields"]:
+            if not _owning(fld.get("ty")):
+                continue
+            n += 1
+            nm = fld["name"]
+            key = "%s|%s|Lambda.%s" % (rule, weigher.short.rsplit("::", 1)[-1], nm)
+            (rep.ok if nm in used else rep.fail)(
+                rule, key, "the weigher reads Lambda.%s" % nm if nm in used else
+                "%s never reads Lambda.%s (%s): what a procedure owns there weighs nothing, so dead procedures that are large in that "
+                "field pile up unseen" % (weigher.short, nm, fld.get("ty")), [sw["term"]["loc"]])
+    rep.floor(rule, "memory-owning fields of Lambda", n, 4)
 
 
 def _gate_every_instruction(facts):
